@@ -173,11 +173,26 @@ func checkWriters(c WCase) (WOutcome, error) {
 			os.RemoveAll(src)
 			os.RemoveAll(dst)
 			os.MkdirAll(src, 0o755)
+			format := []string{"golang-migrate", "flyway", "goose", "dbmate"}[op.File%4]
 			for i, s := range op.Stmts {
-				os.WriteFile(filepath.Join(src, fmt.Sprintf("%d_f.up.sql", i+1)), []byte(s+";\n"), 0o644)
-				os.WriteFile(filepath.Join(src, fmt.Sprintf("%d_f.down.sql", i+1)), []byte("-- down\n"), 0o644)
+				switch format {
+				case "golang-migrate":
+					os.WriteFile(filepath.Join(src, fmt.Sprintf("%d_f.up.sql", i+1)), []byte(s+";\n"), 0o644)
+					os.WriteFile(filepath.Join(src, fmt.Sprintf("%d_f.down.sql", i+1)), []byte("-- down\n"), 0o644)
+				case "flyway":
+					// versions whose numeric order differs from the byte order of the generated names (1, 2, 10), plus a repeatable
+					v := []int{1, 2, 10, 11}[i%4]
+					os.WriteFile(filepath.Join(src, fmt.Sprintf("V%d__f%d.sql", v, i)), []byte(s+";\n"), 0o644)
+					if i == 1 {
+						os.WriteFile(filepath.Join(src, "R__rep.sql"), []byte("SELECT 1;\n"), 0o644)
+					}
+				case "goose":
+					os.WriteFile(filepath.Join(src, fmt.Sprintf("%d_f.sql", []int{1, 2, 10, 11}[i%4])), []byte("-- +goose Up\n"+s+";\n-- +goose Down\nSELECT 1;\n"), 0o644)
+				case "dbmate":
+					os.WriteFile(filepath.Join(src, fmt.Sprintf("%d_f.sql", []int{1, 2, 10, 11}[i%4])), []byte("-- migrate:up\n"+s+";\n-- migrate:down\nSELECT 1;\n"), 0o644)
+				}
 			}
-			r := sb.Run("migrate", "import", "--from", "file://src?format=golang-migrate", "--to", "file://dst")
+			r := sb.Run("migrate", "import", "--from", "file://src?format="+format, "--to", "file://dst")
 			if r.Code != 0 {
 				return out, fmt.Errorf("step %d: migrate import failed: %v", step, r)
 			}
@@ -187,8 +202,9 @@ func checkWriters(c WCase) (WOutcome, error) {
 					return out, fmt.Errorf("step %d: import target missing: %v", step, err)
 				}
 				if err := migrate.Validate(d2); err != nil {
-					return out, fmt.Errorf("step %d: imported directory does not validate: %v", step, err)
+					return out, fmt.Errorf("step %d: directory imported from a %s source does not validate: %v", step, format, err)
 				}
+				out.Classes = append(out.Classes, "writers/import/"+format)
 			}
 		case "tamper":
 			names := sqlNames()
